@@ -329,12 +329,32 @@ PLANS.update({
                    [io_recv_cfg(m, 2, 6, 0, "code", True, arbitrary=True, rawlen=r) for m, r in [("UE6", 5), ("X_vu8_u8", 5), ("US2", 4), ("UE1", 4), ("X_s8_u16", 4)]]),
 })
 
+# ---- unbounded window arithmetic (Apalache, inductive invariant) --------------------------------------
+APALACHE_WINDOW = {"type": "apalache", "module": "apalache/IoWindow", "obligations": [
+    {"name": "Init => IndInv", "args": ["--cinit=ConstInit", "--init=Init", "--inv=IndInv", "--length=0"]},
+    {"name": "IndInv /\\ Next => IndInv'", "args": ["--cinit=ConstInit", "--init=IndInit", "--inv=IndInv", "--length=1"]},
+    {"name": "IndInv => Safety", "args": ["--cinit=ConstInit", "--init=IndInit", "--inv=Safety", "--length=0"]},
+]}
+for pid in ("C07", "C10"):
+    for tier in ("quick", "thorough"):
+        PLANS[pid][tier].append(APALACHE_WINDOW)
+    PLANS[pid]["rule"] += "; plus, for every capacity / alignment / chunk size / message size at once, the window arithmetic (WindowInv, conservation, GuardInside) as an inductive invariant discharged by Apalache (spec/apalache/IoWindow.tla)"
+    PLANS[pid]["must_exercise"].append("apalache.obligations")
+
+# ---- the rounding arithmetic of the layout rules, proved for all integers (TLAPS) ------------------------
+for tier in ("quick", "thorough"):
+    PLANS["C04"][tier].append({"type": "tlaps", "module": "tlaps/LayoutArith"})
+PLANS["C04"]["rule"] += "; plus the rounding lemmas (CeilMul / FloorMul bounds, multiples, gap) the layout rule is built from, proved for all integers by tlapm (spec/tlaps/LayoutArith.tla)"
+PLANS["C04"]["must_exercise"].append("tlaps.obligations")
+
 META = {
     "guard": "cargo feature `verif` of flatty-io (off by default)",
     "enable": "the harness depends on /repo by path; io hooks: flatty-io with features = [\"verif\"]",
     "hook_commits": ["9b2ae68"],
     "engines": [
         {"name": "tlc", "path": "/verif/spec", "serves_properties": sorted(PLANS), "kind_free_text": "explicit TLA+ specification of the flat format, checked with TLC; prints one replayable case per explored state"},
+        {"name": "apalache", "path": "/verif/spec/apalache", "serves_properties": ["C07", "C10"], "kind_free_text": "Apalache (symbolic) check that the receive-window arithmetic is an inductive invariant for every capacity, alignment, chunk and message size"},
+        {"name": "tlaps", "path": "/verif/spec/tlaps", "serves_properties": ["C04"], "kind_free_text": "TLA+ proof system (tlapm, SMT back end): the rounding lemmas behind the layout rule for all integers"},
         {"name": "harness", "path": "/verif/harness", "serves_properties": sorted(PLANS), "kind_free_text": "Rust replayer built against /repo's working tree: replays TLC's cases into the real API inside guard-paged memory and judges each property's projection"},
     ],
     "notes": "Model-based verification with an explicit TLA+ specification (DESIGN.md). ./check <ID> quick|thorough; exit 2 = tool error. Known findings: KNOWN_FINDINGS.txt.",
